@@ -241,7 +241,21 @@ class ResultTypesGenerator:
             )
 
         if fragments:
-            class_bases = [str_to_pascal_case(f) for f in sorted(fragments)]
+            # a fragment class has to precede the classes of the fragments it spreads
+            class_bases = [
+                str_to_pascal_case(f)
+                for f in sorted(
+                    fragments,
+                    key=lambda f: (
+                        -len(
+                            self._get_fragments_names(
+                                self.fragments_definitions[f].selection_set
+                            )
+                        ),
+                        f,
+                    ),
+                )
+            ]
         else:
             class_bases = [BASE_MODEL_CLASS_NAME]
         if extra_bases:
